@@ -200,6 +200,18 @@ pub fn gen_inputs(cfg: &RunCfg) -> Vec<Vec<M>> {
                 let name = format!("ChoM{set}x{m}x{c}e");
                 md.defs.push(D { text: format!("{name} ::= CHOICE {{ {} }}", alts.join(", ")), name, kind: Kind::Type, shape: "ChoM".into(), refs: vec![], fault: None });
             }
+            // a CHOICE with recursive alternatives (boxed payloads), and CHOICE values whose payload is / is not
+            // a constant expression (lazily initialised under every flavour)
+            if rng.chance(1, 2) {
+                let rc = format!("RecC{set}x{m}e");
+                md.defs.push(D { text: format!("{rc} ::= CHOICE {{ and SEQUENCE OF {rc}, not {rc}, leaf INTEGER (0..7), other BOOLEAN }}"), name: rc, kind: Kind::Type, shape: "ChoM".into(), refs: vec![], fault: None });
+                let key = format!("Key{set}x{m}e");
+                md.defs.push(D { text: format!("{key} ::= CHOICE {{ by-name UTF8String, num INTEGER (0..7), big INTEGER, flag BOOLEAN }}"), name: key.clone(), kind: Kind::Type, shape: "ChoM".into(), refs: vec![], fault: None });
+                for (vi, v) in ["by-name : \"hello\"", "num : 5", "big : 99999999999999999999", "flag : TRUE"].iter().enumerate() {
+                    let vn = format!("kv{set}x{m}x{vi}e");
+                    md.defs.push(D { text: format!("{vn} {key} ::= {v}"), name: vn, kind: Kind::Value, shape: "vCho".into(), refs: vec![key.clone()], fault: None });
+                }
+            }
             mods.push(md);
         }
         link_imports(&mut rng, &mut mods, 2, &format!("{set}"));
@@ -211,7 +223,7 @@ pub fn gen_inputs(cfg: &RunCfg) -> Vec<Vec<M>> {
 pub fn run(cfg: &RunCfg) -> Report {
     let mut rep = Report::new(
         "C19",
-        "generated module sets (types incl. CHOICEs whose alternatives repeat payload types 0..5 times, lazily initialised values, IMPORTS between modules) compiled under Config::default() and under all 2^4 boolean combinations x {no, one, several} custom imports x {default, extra derives, extra non-derive attributes, derives listed twice / oddly spaced, no derive line, empty} type annotations. Model tie: project(compile cfg x) = decorate cfg (project(compile default x)) item by item. Oracle (Lean, on the implementation's output): definitions identical to the default configuration's after erasing derives / user attributes / lazy flavour / From impls; required derives present and no derive twice; From impls exactly for payload types unique within their CHOICE and only with the option; import lists unchanged unless wildcard; builtin + custom use lines; lazy flavour follows no_std",
+        "generated module sets (types incl. CHOICEs whose alternatives repeat payload types 0..5 times, recursive CHOICEs, CHOICE values with constant and non-constant payloads, lazily initialised values, IMPORTS between modules) compiled under Config::default() and under all 2^4 boolean combinations x {no, one, several} custom imports x {default, extra derives, extra non-derive attributes, derives listed twice / oddly spaced, no derive line, empty} type annotations. Model tie: project(compile cfg x) = decorate cfg (project(compile default x)) item by item. Oracle (Lean, on the implementation's output): definitions identical to the default configuration's after erasing derives / user attributes / lazy flavour / From impls; required derives present and no derive twice; From impls exactly for payload types unique within their CHOICE and only with the option; import lists unchanged unless wildcard; builtin + custom use lines; lazy flavour follows no_std",
     );
     let inputs: Vec<Vec<M>> = if let Some(r) = &cfg.replay {
         let r = r.get("case").unwrap_or(r);
